@@ -469,7 +469,15 @@ impl<'a> Validator<'a> {
     }
 
     /// Validate an escape sequence.
+    ///
+    /// Errors inside a `\uXXXX` escape are reported at the backslash that starts
+    /// it, not at the byte where they were detected. Whether such an escape is
+    /// acceptable depends on all four digits (and, after a high surrogate, on
+    /// a whole second escape), so by the time a lone or mismatched surrogate is
+    /// recognised the cursor is already past input that no continuation could
+    /// have made valid. The backslash is always within the valid prefix.
     fn validate_escape(&mut self) -> Result<(), ValidationError> {
+        let start = self.position();
         self.advance(); // consume backslash
 
         match self.peek() {
@@ -479,11 +487,12 @@ impl<'a> Validator<'a> {
             }
             Some(b'u') => {
                 self.advance();
-                let high = self.validate_unicode_escape()?;
+                let high = self.validate_unicode_escape(start)?;
 
                 // Check for surrogate pair
                 if (0xD800..=0xDBFF).contains(&high) {
                     // High surrogate - must be followed by \uXXXX low surrogate
+                    let second = self.position();
                     if self.peek() != Some(b'\\') {
                         return Err(
                             self.error(ValidationErrorKind::UnpairedSurrogate { codepoint: high })
@@ -497,17 +506,19 @@ impl<'a> Validator<'a> {
                     }
                     self.advance();
 
-                    let low = self.validate_unicode_escape()?;
+                    let low = self.validate_unicode_escape(second)?;
                     if !(0xDC00..=0xDFFF).contains(&low) {
-                        return Err(
-                            self.error(ValidationErrorKind::UnpairedSurrogate { codepoint: high })
-                        );
+                        return Err(ValidationError {
+                            kind: ValidationErrorKind::UnpairedSurrogate { codepoint: high },
+                            position: second,
+                        });
                     }
                 } else if (0xDC00..=0xDFFF).contains(&high) {
                     // Lone low surrogate
-                    return Err(
-                        self.error(ValidationErrorKind::UnpairedSurrogate { codepoint: high })
-                    );
+                    return Err(ValidationError {
+                        kind: ValidationErrorKind::UnpairedSurrogate { codepoint: high },
+                        position: start,
+                    });
                 }
 
                 Ok(())
@@ -519,8 +530,11 @@ impl<'a> Validator<'a> {
         }
     }
 
-    /// Validate a \uXXXX unicode escape and return the codepoint.
-    fn validate_unicode_escape(&mut self) -> Result<u16, ValidationError> {
+    /// Validate the four hex digits of a \uXXXX escape and return the code unit.
+    ///
+    /// `start` is the position of the escape's backslash; errors are reported
+    /// there (see [`Self::validate_escape`]).
+    fn validate_unicode_escape(&mut self, start: Position) -> Result<u16, ValidationError> {
         let mut value: u16 = 0;
 
         for _ in 0..4 {
@@ -538,14 +552,20 @@ impl<'a> Validator<'a> {
                     self.advance();
                 }
                 Some(_) => {
-                    return Err(self.error(ValidationErrorKind::InvalidUnicodeEscape {
-                        reason: "expected 4 hex digits",
-                    }));
+                    return Err(ValidationError {
+                        kind: ValidationErrorKind::InvalidUnicodeEscape {
+                            reason: "expected 4 hex digits",
+                        },
+                        position: start,
+                    });
                 }
                 None => {
-                    return Err(self.error(ValidationErrorKind::InvalidUnicodeEscape {
-                        reason: "unexpected end of input",
-                    }));
+                    return Err(ValidationError {
+                        kind: ValidationErrorKind::InvalidUnicodeEscape {
+                            reason: "unexpected end of input",
+                        },
+                        position: start,
+                    });
                 }
             }
         }
@@ -1136,6 +1156,31 @@ mod tests {
             err.kind,
             ValidationErrorKind::UnpairedSurrogate { .. }
         ));
+    }
+
+    #[test]
+    fn test_unicode_escape_errors_point_at_escape_start() {
+        // (input, offset of the backslash that starts the offending escape).
+        // The reported offset must never lie beyond the longest prefix that
+        // could still be completed into a valid document.
+        let cases: [(&[u8], usize); 7] = [
+            (br#""\udfff""#, 1),
+            (br#""\uDC"#, 1),
+            (br#""ab\u00G""#, 3),
+            (br#""\uD800\u0"#, 7),
+            (br#""\uD800\uD8"#, 7),
+            (br#""\uD800A""#, 7),
+            (b"[\n\"\\uD800\\uD800\"]", 9),
+        ];
+        for (input, offset) in cases {
+            let err = validate(input).unwrap_err();
+            assert_eq!(err.position.offset, offset, "{err}");
+            let line_start = input[..offset]
+                .iter()
+                .rposition(|&b| b == b'\n')
+                .map_or(0, |i| i + 1);
+            assert_eq!(err.position.column, offset - line_start + 1, "{err}");
+        }
     }
 
     #[test]
